@@ -338,7 +338,7 @@ def c11(ctx):
             l.append((ext, c16, replay))
     real = [x for l in by_sig.values() for x in l]
     ctx.rng.shuffle(real)
-    cap_real = 450 if quick else 6000
+    cap_real = 450 if quick else 4000
     real.sort(key=lambda x: 0 if (x[1].get("panic") or "").split(":")[0] in ("summarize", "represent") else 1)
     real = real[:cap_real]
     rc, res = vh_stages(ctx, "run", [{"id": str(i), "ext": x[0], "request": x[1]["stage_req"], "response": x[1]["stage_resp"]} for i, x in enumerate(real)])
@@ -365,11 +365,11 @@ def c11(ctx):
             continue
         seen.add(sig)
         bases.append({"id": "emitted-%d" % len(bases), "ext": x[0], "request": x[1]["stage_req"], "response": x[1]["stage_resp"]})
-    bases = bases[:60 if quick else 1500]
+    bases = bases[:60 if quick else 500]
     wit = []
     for e in EXTS:
         for alt in shapes["alts"][e]:
-            for w in witnesses(alt, 0 if quick else 150)[:(1 if quick else 400)]:
+            for w in witnesses(alt, 0 if quick else 100)[:(1 if quick else 200)]:
                 wit.append({"id": "witness %s %s" % (alt["name"], w[0]), "ext": e, "request": w[1], "response": w[2]})
     # the witnesses themselves conform and must not panic
     rc, wres = vh_stages(ctx, "run", wit)
@@ -389,7 +389,7 @@ def c11(ctx):
                            "how": "vh-stages run"})
     nwit = len(cases) - nreal
     ctx.log("stages tie: %d emitted items dumped, %d sampled, %d witnesses run" % (dumped, nreal, nwit))
-    mut_bases = bases + (wit if quick else wit[::3])
+    mut_bases = bases + (wit if quick else wit[::5])
     rc, mres = vh_stages(ctx, "mutate", mut_bases, extra=["-keys", os.path.join(vlib.COQ, "gen", "StagesSrc.json"), "-per", "1" if quick else "2"])
     if rc != 0:
         ctx.broken.append("K_stages: vh-stages mutate failed")
